@@ -349,6 +349,12 @@ def main():
             f["others"] = len(fresh) - 1
             violations.append(f)
 
+    if hasattr(mod, "extra") and not args.replay:
+        st, fails = mod.extra(tier, seed)
+        part_stats["extra"] = st
+        stats["evaluations"] += st.get("evaluations", 0)
+        violations += fails
+
     proof_broken = bool(pr["errors"]) or pr["discharged"] != pr["obligations"] or pr["obligations"] == 0
     out_lines = []
     for kid, f in known_hits.items():
@@ -362,7 +368,8 @@ def main():
             f["what"] = f"property clause fails on the implementation: {f['monitor_text']}"
             suffix = ""
         else:
-            f["what"] = (f"correspondence {pid}/{f['part']} (model component '{[p for p in mod.PARTS if p.name == f['part']][0].component}') "
+            comp = ([p.component for p in mod.PARTS if p.name == f['part']] or ["-"])[0]
+            f["what"] = (f"correspondence {pid}/{f['part']} (model component '{comp}') "
                          f"no longer checks: {f['detail']}; theorems of Props/{pid}.v therefore no longer speak about this code")
             suffix = " no-failing-input-found"
         json.dump(f, open(rp, "w"), indent=1)
